@@ -178,11 +178,22 @@ def check(ctx):
             cal = c.get("callee") or ""
             if not c["args"]:
                 continue
-            a0 = show(tbf.joperand(c["args"][0]))
-            if "Enum" not in a0:
+            def from_enum(t, depth=0):
+                if "Enum" in show(t):
+                    return True
+                if depth > 3:
+                    return False
+                for x in subterms(t):
+                    if x[0] == "local":
+                        for d in tbf.defs.get(x[1], ()):
+                            dt = tbf.rvalue(f.blocks[d[1]].stmts[d[2]]["rv"]) if d[0] == "stmt" else tbf.call_term(f.blocks[d[1]].term["call"])
+                            if from_enum(dt, depth + 1):
+                                return True
+                return False
+            if not from_enum(tbf.joperand(c["args"][0])):
                 continue
             short = cal.split("::")[-1]
-            if short in ("deref", "as_slice", "iter", "len", "fmt", "new_debug", "new_display", "clone"):
+            if short in ("deref", "as_slice", "iter", "len", "fmt", "new_debug", "new_display", "clone", "into_iter", "copied", "cloned", "as_ref"):
                 continue
             nm += 1
             ok = short in ("contains", "any")
